@@ -317,16 +317,21 @@ class Exec:
     def ew(self, st, op, a, b):
         """Elementwise binary op with scalar broadcasting."""
         aa, ba = self.is_arr(a), self.is_arr(b)
+        def et(x):
+            if self.is_arr(x):
+                return x.elem
+            return INT if is_intlike(x) or isinstance(x, bool) else REAL
+        elem = INT if (et(a) == INT and et(b) == INT and not getattr(op, 'real_result', False)) else REAL
         if aa and ba:
             if a.rank != b.rank:
                 raise OutOfReach('broadcast between ranks')
             fa, fb = self.elem_fn(st, a), self.elem_fn(st, b)
-            return ExprArr(a.shape, lambda j: op(fa(j), fb(j)), REAL), list(zip(a.shape, b.shape))
+            return ExprArr(a.shape, lambda j: op(fa(j), fb(j)), elem), list(zip(a.shape, b.shape))
         if aa:
             fa = self.elem_fn(st, a)
-            return ExprArr(a.shape, lambda j: op(fa(j), b), REAL), []
+            return ExprArr(a.shape, lambda j: op(fa(j), b), elem), []
         fb = self.elem_fn(st, b)
-        return ExprArr(b.shape, lambda j: op(a, fb(j)), REAL), []
+        return ExprArr(b.shape, lambda j: op(a, fb(j)), elem), []
 
     # ------------------------------------------------------------------
     # names
@@ -356,6 +361,9 @@ class Exec:
             if nm in m2.globals:
                 return self.ev(m2.globals[nm], State(), Frame(m2, '<module>', None, None))
             raise OutOfReach('import %s from %s' % (nm, rel))
+        if name in getattr(mod, 'modimports', {}):
+            full = mod.modimports[name]
+            return FunVal('builtin', 'np' if full == 'numpy' else full)
         if name in self.ctx.spec_funs:
             return FunVal('spec', name)
         if name in self.ctx.consts:
@@ -398,6 +406,38 @@ class Exec:
                 out.append(self.ev(x, st, fr))
         return out
 
+    def ev_ListComp(self, e, st, fr):
+        if len(e.generators) != 1:
+            raise OutOfReach('nested comprehension')
+        g = e.generators[0]
+        it = self.ev(g.iter, st, fr)
+        if self.is_arr(it):
+            if it.rank != 1 or not is_cint(it.shape[0]):
+                raise OutOfReach('comprehension over a symbolic-length array')
+            f = self.elem_fn(st, it)
+            it = [f((k,)) for k in range(it.shape[0])]
+        if isinstance(it, dict):
+            it = list(it.keys())
+        out = []
+        saved = dict(st.env)
+        try:
+            for v in list(it):
+                self.assign(g.target, v, st, fr)
+                ok = True
+                for c in g.ifs:
+                    t = truth(self.ev(c, st, fr))
+                    if not isinstance(t, bool):
+                        raise OutOfReach('comprehension filter with symbolic condition')
+                    ok = ok and t
+                if ok:
+                    out.append(self.ev(e.elt, st, fr))
+        finally:
+            st.env = saved
+        return out
+
+    def ev_GeneratorExp(self, e, st, fr):
+        return self.ev_ListComp(e, st, fr)
+
     def ev_Slice(self, e, st, fr):
         return slice(None if e.lower is None else self.ev(e.lower, st, fr),
                      None if e.upper is None else self.ev(e.upper, st, fr),
@@ -427,7 +467,10 @@ class Exec:
         if self.is_arr(a) or self.is_arr(b):
             def ob(kind, cond):
                 pass  # elementwise division: obligations are generated on materialisation only for scalars
-            r, pairs = self.ew(st, lambda x, y: binop(opn, x, y, None), a, b)
+            opf = (lambda x, y: binop(opn, x, y, None))
+            if opn == 'Div':
+                opf.real_result = True
+            r, pairs = self.ew(st, opf, a, b)
             for x, y in pairs:
                 self.safety(st, fr, 'shape_agreement', compare('Eq', x, y), node)
             if opn == 'Mod' and not self.is_arr(b) and is_reallike(b):
@@ -539,8 +582,9 @@ class Exec:
                 return ExprArr([base.shape[1], base.shape[0]], lambda j: f((j[1], j[0])), base.elem)
             raise OutOfReach('array attribute ' + a)
         if isinstance(base, Obj):
-            if a in base.attrs:
-                return base.attrs[a]
+            attrs = st.objs.setdefault(base.oid, {})
+            if a in attrs:
+                return attrs[a]
             # property or method
             cls = base.cls
             r = self.find_method(cls, a)
